@@ -22,6 +22,8 @@ struct Params {
     bound_policy: u8,
     /// hash key of the subscriber table (iteration order of the publish loop)
     hash_key: u64,
+    /// what a broken connection answers writes with: 0 BrokenPipe, 1 ConnectionReset, 2 TimedOut
+    err_kind: u8,
 }
 
 fn publish_msg(i: usize, size: usize) -> Vec<Vec<u8>> {
@@ -52,6 +54,7 @@ fn scenario(pr: &Params) -> Verdict {
     let obs = std::rc::Rc::new(std::cell::RefCell::new(Vec::<StepObs>::new()));
     let obs2 = obs.clone();
     let (slow2, msgs2, sent2, modes) = (slow.clone(), msgs.clone(), sentinels.clone(), pr.modes.clone());
+    let err_kind = pr.err_kind;
     let hs_len = std::rc::Rc::new(std::cell::Cell::new(0usize));
     let hs_len2 = hs_len.clone();
     world::spawn_app("publisher", async move {
@@ -83,7 +86,7 @@ fn scenario(pr: &Params) -> Verdict {
                         0 => WMode::Open,
                         1 => WMode::Stalled,
                         2 => WMode::Budget(1000),
-                        _ => WMode::Fail(std::io::ErrorKind::BrokenPipe),
+                        _ => WMode::Fail([std::io::ErrorKind::BrokenPipe, std::io::ErrorKind::ConnectionReset, std::io::ErrorKind::TimedOut][err_kind as usize % 3]),
                     },
                 );
             }
@@ -212,7 +215,7 @@ fn scenario(pr: &Params) -> Verdict {
 }
 
 fn pj(p: &Params) -> Value {
-    json!({"type": p.ty.name(), "modes": p.modes, "sizes": p.sizes, "two_slow": p.two_slow, "policy": p.bound_policy, "hash_key": p.hash_key})
+    json!({"type": p.ty.name(), "modes": p.modes, "sizes": p.sizes, "two_slow": p.two_slow, "policy": p.bound_policy, "hash_key": p.hash_key, "err_kind": p.err_kind})
 }
 
 fn pf(v: &Value) -> Option<Params> {
@@ -224,6 +227,7 @@ fn pf(v: &Value) -> Option<Params> {
         two_slow: v["two_slow"].as_bool()?,
         bound_policy: v["policy"].as_u64().unwrap_or(0) as u8,
         hash_key: v["hash_key"].as_u64().unwrap_or(0),
+        err_kind: v["err_kind"].as_u64().unwrap_or(0) as u8,
     })
 }
 
@@ -281,10 +285,14 @@ pub fn run(tier: Tier, replay: Option<String>) -> i32 {
                 // the iteration order of the subscriber table matters once a subscriber is removed mid-loop
                 let keys: Vec<u64> = if s.contains(&3) { vec![0, 1, 2] } else { vec![0] };
                 for hash_key in keys {
-                    let pr = Params { ty, modes: s.clone(), sizes: prof.clone(), two_slow: false, bound_policy: 0, hash_key };
-                    let pr2 = pr.clone();
-                    n += 1;
-                    jobs.push(e3::job(format!("C12/{}/{:?}/{:?}/key{}", ty.name(), prof, s, hash_key), pj(&pr), 0, 1000, move || scenario(&pr2)));
+                    // a connection that breaks: also with the other error kinds a write can fail with
+                    let kinds: Vec<u8> = if s.contains(&3) { vec![0, 1, 2] } else { vec![0] };
+                    for err_kind in kinds {
+                        let pr = Params { ty, modes: s.clone(), sizes: prof.clone(), two_slow: false, bound_policy: 0, hash_key, err_kind };
+                        let pr2 = pr.clone();
+                        n += 1;
+                        jobs.push(e3::job(format!("C12/{}/{:?}/{:?}/key{}/err{}", ty.name(), prof, s, hash_key, err_kind), pj(&pr), 0, 1000, move || scenario(&pr2)));
+                    }
                 }
             }
         }
@@ -299,7 +307,7 @@ pub fn run(tier: Tier, replay: Option<String>) -> i32 {
                 if !two && tier == Tier::Quick {
                     continue;
                 }
-                let pr = Params { ty, modes: s.clone(), sizes: profiles[0].clone(), two_slow: two, bound_policy: 0, hash_key: 0 };
+                let pr = Params { ty, modes: s.clone(), sizes: profiles[0].clone(), two_slow: two, bound_policy: 0, hash_key: 0, err_kind: 0 };
                 let pr2 = pr.clone();
                 n += 1;
                 jobs.push(e3::job(format!("C12/{}/dev/{:?}/{}", ty.name(), s, two), pj(&pr), 1, 5000, move || scenario(&pr2)));
